@@ -102,3 +102,10 @@ Proof. vm_compute. reflexivity. Qed.
 Lemma sweep_with_renames_finds_counterexample :
   forallb (fun h => agree (run_batches s_sweep h)) (histories (ops_plain ++ ops_moves) 3) = false.
 Proof. vm_compute. reflexivity. Qed.
+Lemma rm_watch_on_dropped_watch_refuted :
+  agree s_W2 = true /\ s_queue s_W2 = [] /\
+  dies_settling 200 (apply_batch s_W2 [OMove p_d1 p_d9; ORmdir p_d9]) = true /\
+  dies_settling 200 (apply_batch s_W2 [OMove p_d1 p_d9]) = false /\
+  dies_settling 200 (apply_batch s_W2 [ORmdir p_d1]) = false /\
+  dies_settling 200 (apply_batch (settle 200 (apply_batch s_W2 [OMove p_d1 p_d9])) [ORmdir p_d9]) = false.
+Proof. vm_compute. repeat split; reflexivity. Qed.
